@@ -20,7 +20,11 @@ ModelDiff(o) == IF ~HasModel(o) THEN {}
 StaleNames == {"stale-soft-requirement-of-a-version-replaced-after-it-was-expanded", "stale-soft-requirement-of-an-abandoned-branch",
                "stale-order-a-farther-declaration-met-first-in-an-abandoned-attempt-wins"}
 Restarted(o) == IF "restarted" \in DOMAIN o THEN o.restarted ELSE TRUE
-LawName(x, o) == IF x[1] \in StaleNames /\ ~Restarted(o) THEN x[1] \o "-although-the-resolution-never-restarted" ELSE x[1]
+\* ... and a nearest-wins deviation that none of the three shapes explains IS that finding when the resolution restarted and the
+\* real graph is exactly what the restart algorithm, as modelled in MavenResolve.tla, returns for this universe
+LawName(x, o) == IF x[1] \in StaleNames /\ ~Restarted(o) THEN x[1] \o "-although-the-resolution-never-restarted"
+                 ELSE IF x[1] = "nearest-declaration-does-not-win" /\ Restarted(o) /\ HasModel(o) /\ ModelDiff(o) = {}
+                      THEN "nearest-wins-deviation-of-the-restart-algorithm-as-modelled" ELSE x[1]
 LawsOK(o) == o.ok => \A x \in MavenViolations(o.universe, o.root, o.graph, o.softonly) :
                         CSVWrite("%1$s", <<ToJson([law |-> LawName(x, o), n |-> row, k |-> x[2]])>>, RejFile)
 ModelOK(o) == \A l \in ModelDiff(o) : CSVWrite("%1$s", <<ToJson([law |-> l, n |-> row, k |-> 0])>>, RejFile)
